@@ -6,6 +6,9 @@
  *                                               -> ok <matrix> <xml-hex> <json-hex> <view-hex> | err Parse <kind>
  *   opaqview <xml|json> <data-hex>              parse with LYD_PARSE_OPAQ | LYD_PARSE_ONLY; the shrunk XML output and the forest as the
  *                                               XML printer reads it (ovw_r below)  -> ok <xml-shrink-hex> <view-hex> | err Parse
+ *   xview <xml|json> <data-hex> <opaq 0|1>      for each with-defaults mode: shrunk XML and the XML printer's view of the data tree
+ *                                               (xvw_r below: printed nodes, metadata, value prefix modules, opaque children)
+ *                                               -> ok (<xml-hex> <view-hex>){5} | err Parse
  *   cross <xml-hex> <json-hex>                  the same instance encoded independently in XML and JSON
  *                                               -> ok <eq:0|1> | err ParseXml|ParseJson
  *
@@ -16,6 +19,7 @@
  *   basetype, dflt flag, canonical value hex — what an independent encoder/decoder needs to know about the tree.   */
 #define _GNU_SOURCE
 #include "libyang.h"
+#include "plugins_types.h"  /* struct lyplg_type: the print callback of the type plug-ins (op xview) */
 #include "xml.h"        /* struct lyxml_ns: the entries of the value prefix data of opaque nodes (op opaqview) */
 #include "proto.h"
 
@@ -328,6 +332,93 @@ ovw_r(struct sbuf *b, const struct lyd_node *n, int depth)
     }
 }
 
+/* ---- XML printer view of a DATA tree under print options `opts` (op xview): the nodes lyd_node_should_print() lets through, with
+ * exactly what xml_print_node_open / xml_print_meta / xml_print_term read; opaque nodes as in ovw_r ---------------------------------
+ *   T <depth> <ns> <name> <wd: ~ | ns> <wd prefix | ~> <value> <k> (<prefix> <ns>){k}      leaf / leaf-list; (prefix, ns) = ns_list[1..]
+ *   I <depth> <ns> <name>                                                                  container, list, rpc, action, notification
+ *   M <ns> <prefix> <name> <value> <k> (<prefix> <ns>){k}                                  printable metadata of the preceding T / I
+ *   N / A                                                                                  opaque node / its attribute (ovw_r)
+ *   X <depth>                                                                              anydata / anyxml: outside the model */
+static void
+xvw_mods(struct sbuf *b, const struct ly_set *ns_list)
+{
+    uint32_t i;
+
+    sb_printf(b, " %u", ns_list->count ? ns_list->count - 1 : 0);
+    for (i = 1; i < ns_list->count; i++) {
+        const struct lys_module *mod = ns_list->objs[i];
+        sb_printf(b, " "); sb_hex(b, mod->prefix); sb_printf(b, " "); sb_hex(b, mod->ns);
+    }
+}
+
+static void
+xvw_meta(struct sbuf *b, const struct lyd_node *n)
+{
+    const struct lyd_meta *m;
+
+    for (m = n->meta; m; m = m->next) {
+        struct ly_set ns_list = {0};
+        ly_bool dynamic = 0;
+        const char *value;
+
+        if (!lyd_metadata_should_print(m)) continue;
+        ly_set_add(&ns_list, NULL, 0, NULL);
+        value = m->value.realtype->plugin->print(LYD_CTX(n), &m->value, LY_VALUE_XML, &ns_list, &dynamic, NULL);
+        sb_printf(b, "M "); sb_hex(b, m->annotation->module->ns); sb_printf(b, " "); sb_hex(b, m->annotation->module->prefix);
+        sb_printf(b, " "); sb_hex(b, m->name); sb_printf(b, " "); sb_hex(b, value);
+        xvw_mods(b, &ns_list);
+        sb_printf(b, "\n");
+        ly_set_erase(&ns_list, NULL);
+        if (dynamic) free((void *)value);
+    }
+}
+
+static void
+xvw_r(struct sbuf *b, const struct lyd_node *n, int depth, uint32_t opts)
+{
+    for (; n; n = n->next) {
+        if (!lyd_node_should_print(n, opts)) continue;
+        if (!n->schema) {
+            /* one opaque node with its subtree: ovw_r walks siblings, so cut the list for the call */
+            struct lyd_node *next = n->next;
+            ((struct lyd_node *)n)->next = NULL;
+            ovw_r(b, n, depth);
+            ((struct lyd_node *)n)->next = next;
+            continue;
+        }
+        if (n->schema->nodetype & LYD_NODE_TERM) {
+            struct ly_set ns_list = {0};
+            ly_bool dynamic = 0;
+            const char *value;
+            const struct lys_module *wdm = NULL;
+
+            if (((n->flags & LYD_DEFAULT) && (opts & (LYD_PRINT_WD_ALL_TAG | LYD_PRINT_WD_IMPL_TAG))) ||
+                    ((opts & LYD_PRINT_WD_ALL_TAG) && lyd_is_default(n))) {
+                wdm = ly_ctx_get_module_latest(LYD_CTX(n), "ietf-netconf-with-defaults");
+            }
+            ly_set_add(&ns_list, n->schema->module, 0, NULL);
+            value = ((struct lysc_node_leaf *)n->schema)->type->plugin->print(LYD_CTX(n), &((struct lyd_node_term *)n)->value,
+                    LY_VALUE_XML, &ns_list, &dynamic, NULL);
+            sb_printf(b, "T %d ", depth); sb_hex(b, n->schema->module->ns); sb_printf(b, " "); sb_hex(b, n->schema->name);
+            sb_printf(b, " ");
+            if (wdm) { sb_hex(b, wdm->ns); sb_printf(b, " "); sb_hex(b, wdm->prefix); } else { sb_printf(b, "~ ~"); }
+            sb_printf(b, " "); sb_hex(b, value);
+            xvw_mods(b, &ns_list);
+            sb_printf(b, "\n");
+            ly_set_erase(&ns_list, NULL);
+            if (dynamic) free((void *)value);
+            xvw_meta(b, n);
+        } else if (n->schema->nodetype & (LYS_CONTAINER | LYS_LIST | LYS_NOTIF | LYS_RPC | LYS_ACTION)) {
+            sb_printf(b, "I %d ", depth); sb_hex(b, n->schema->module->ns); sb_printf(b, " "); sb_hex(b, n->schema->name);
+            sb_printf(b, "\n");
+            xvw_meta(b, n);
+            xvw_r(b, lyd_child(n), depth + 1, opts);
+        } else {
+            sb_printf(b, "X %d\n", depth);
+        }
+    }
+}
+
 static char *
 print_mem(const struct lyd_node *t, LYD_FORMAT f, uint32_t opts)
 {
@@ -504,6 +595,35 @@ main(void)
                 vp_end();
             }
             free(xs); free(vb.s); lyd_free_all(t); free(d);
+        } else if (!strcmp(op, "xview") && r.ntok == 6 && ctx) {
+            /* xview <xml|json> <data-hex> <opaq 0|1>: parse (strict + validate, or LYD_PARSE_OPAQ | LYD_PARSE_ONLY); for each of the five
+             * with-defaults modes the shrunk XML output and the printer's view under these options -> ok (<xml-hex> <view-hex>){5} */
+            LYD_FORMAT fin = !strcmp(r.tok[3], "xml") ? LYD_XML : LYD_JSON;
+            char *d = vp_unhex(r.tok[4], NULL);
+            int opq = atoi(r.tok[5]), w, bad;
+            struct lyd_node *t = NULL;
+
+            ly_err_clean(ctx, NULL);
+            if (opq) {
+                bad = lyd_parse_data_mem(ctx, d, fin, LYD_PARSE_OPAQ | LYD_PARSE_ONLY, 0, &t) ? 1 : 0;
+            } else {
+                bad = (lyd_parse_data_mem(ctx, d, fin, LYD_PARSE_STRICT, LYD_VALIDATE_PRESENT, &t) || lyd_validate_all(&t, ctx, 0, NULL)) ? 1 : 0;
+            }
+            if (bad) {
+                vp_reply(id, "err Parse");
+            } else {
+                vp_begin(id, "ok");
+                for (w = 0; w < 5; w++) {
+                    struct sbuf vb = {0};
+                    char *xs = print_mem(t, LYD_XML, LYD_PRINT_WITHSIBLINGS | WD[w] | LYD_PRINT_SHRINK);
+                    xvw_r(&vb, t, 0, LYD_PRINT_WITHSIBLINGS | WD[w] | LYD_PRINT_SHRINK);
+                    vp_field_hex(xs ? xs : "", xs ? strlen(xs) : 0);
+                    vp_field_hex(vb.s ? vb.s : "", vb.len);
+                    free(xs); free(vb.s);
+                }
+                vp_end();
+            }
+            lyd_free_all(t); free(d);
         } else if (!strcmp(op, "leakcheck")) {
             vp_reply(id, "ok %d", VP_LEAKCHECK() ? 1 : 0);
         } else if (!strcmp(op, "cross") && r.ntok == 5 && ctx) {
